@@ -42,6 +42,20 @@ impl Debt {
     ///   because the data at the end of the `Arc` has the counters.
     /// * It's in the very first page where NULL lives, so it's not mapped.
     pub(crate) const NONE: usize = 0b11;
+
+    /// What a slot holds for a debt on the given pointer.
+    ///
+    /// It is the address, with the kind of the pointer mixed in (see `RefCnt::DEBT_TAG`), so a
+    /// debt is recognized only by someone holding the same kind of count on that address.
+    #[inline]
+    pub(crate) fn token<T: RefCnt>(ptr: *const T::Base) -> usize {
+        debug_assert!(T::DEBT_TAG < Self::NONE);
+        debug_assert!(
+            T::DEBT_TAG == 0 || ptr as usize & 0b11 == 0,
+            "Insufficiently aligned pointer"
+        );
+        ptr as usize | T::DEBT_TAG
+    }
 }
 
 impl Default for Debt {
@@ -65,7 +79,9 @@ impl Debt {
     ///   specifically to the same type ‒ the caller provides the type, it's destructor, etc.
     /// * It also relies on the fact the same thing is not stuffed both inside an `Arc` and `Rc` or
     ///   something like that, but that sounds like a reasonable assumption. Someone storing it
-    ///   through `ArcSwap<T>` and someone else with `ArcSwapOption<T>` will work.
+    ///   through `ArcSwap<T>` and someone else with `ArcSwapOption<T>` will work. An `Arc` and a
+    ///   `Weak` of the same allocation do share the address while counting different things;
+    ///   these are kept apart by the tag in the token (`Debt::token`).
     #[inline]
     pub(crate) fn pay<T: RefCnt>(&self, ptr: *const T::Base) -> bool {
         self.0
@@ -84,7 +100,7 @@ impl Debt {
             // the stale empty value, the debt is missed and the value freed under a live guard).
             // It also needs to acquire the reader's paying the debt back, so that what the reader
             // did with the value happens before a destruction by whoever comes after the writer.
-            .compare_exchange(ptr as usize, Self::NONE, SeqCst, SeqCst)
+            .compare_exchange(Self::token::<T>(ptr), Self::NONE, SeqCst, SeqCst)
             .is_ok()
     }
 
